@@ -55,8 +55,8 @@ def prep_emitters(tree, scratch, env):
         open(os.path.join(dst, "shim.go"), "w").write("package %s\n\n%s" % (pkg, shim))
 
 
-def strace_wrap(cmd, outdir, shard):
-    return ["strace", "-f", "-qq", "-e", "trace=mprotect,mmap,munmap", "-o", os.path.join(outdir, "strace-%d.txt" % shard)] + cmd
+def strace_wrap(cmd, outdir, shard, uname):
+    return ["strace", "-f", "-qq", "-e", "trace=mprotect", "-o", os.path.join(outdir, "strace-%s-%d.txt" % (uname, shard))] + cmd
 
 
 def prep_corpus(tree, scratch, env):
@@ -76,6 +76,57 @@ def prep_corpus(tree, scratch, env):
 
 
 CORPUS_SEED = 20260927
+
+def c14_post(outdir, shard, u):
+    """strace observer: every mprotect that touches the program image or the synthetic code arena must keep PROT_EXEC,
+    and the last protection of every touched page must be read+exec without write"""
+    import json as _json
+    import re as _re
+    rf = os.path.join(outdir, "c14-ranges-%s-%d.json" % (u["name"], shard))
+    sf = os.path.join(outdir, "strace-%s-%d.txt" % (u["name"], shard))
+    out = {"property": "C14", "unit": "strace-" + u["name"], "shard": shard, "evaluations": 0, "classes": {}, "excluded": {}, "samples": [],
+           "violations": [], "knowns": [], "probes_ok": [], "notes": [], "completed": False, "exhaustive": False, "nontrivial_count": 0, "fingerprints": []}
+    if not os.path.exists(rf) or not os.path.exists(sf):
+        out["notes"].append("strace output or range file missing: the observer did not run")
+        return out
+    ranges = _json.load(open(rf))
+    last = {}
+    n = 0
+    pat = _re.compile(r"mprotect\((0x[0-9a-f]+), (\d+), ([A-Z_|]+)")
+    for line in open(sf, errors="replace"):
+        m = pat.search(line)
+        if not m or "= -1" in line:
+            continue  # (calls split by strace into 'unfinished'/'resumed' lines carry their arguments on the first line)
+        lo, ln, prot = int(m.group(1), 16), int(m.group(2)), m.group(3)
+        hit = [k for k, (a, b) in ranges.items() if lo < b and lo + ln > a]
+        if not hit:
+            continue
+        n += 1
+        out["classes"]["mprotect-on-%s" % hit[0]] = out["classes"].get("mprotect-on-%s" % hit[0], 0) + 1
+        if hit[0] == "synthetic-arena" and prot in ("PROT_READ|PROT_WRITE", "PROT_NONE") and ln >= 4 * 4096:
+            continue  # the harness preparing / retiring a whole region (never a single-page goom write)
+        if "PROT_EXEC" not in prot:
+            p = os.path.join(outdir, "strace-violation-%s-%d.json" % (u["name"], shard))
+            _json.dump({"property": "C14", "unit": out["unit"], "message": "mprotect without PROT_EXEC on %s: %s" % (hit[0], line.strip()),
+                        "case": {"strace_line": line.strip()}}, open(p, "w"))
+            out["violations"].append({"message": "a page of %s lost PROT_EXEC while being written: %s" % (hit[0], line.strip()), "replay": p})
+            break
+        for pg in range(lo, lo + ln, 4096):
+            last[pg] = prot
+        if len(out["samples"]) < 3:
+            out["samples"].append(line.strip())
+    for pg, prot in last.items():
+        if "PROT_WRITE" in prot:
+            p = os.path.join(outdir, "strace-violation-%s-%d.json" % (u["name"], shard))
+            _json.dump({"property": "C14", "unit": out["unit"], "message": "page %#x left writable (%s)" % (pg, prot), "case": {"page": pg}}, open(p, "w"))
+            out["violations"].append({"message": "page %#x is left writable after the last write (%s)" % (pg, prot), "replay": p})
+            break
+    out["evaluations"] = n
+    out["nontrivial_count"] = len(last)
+    out["fingerprints"] = sorted(last.keys())[:200000]
+    out["completed"] = n > 0
+    return out
+
 
 PROPS = {}
 
@@ -377,4 +428,25 @@ PROPS["C02"] = {
     "assumptions": ["calls that reach an origin placeholder run with stack headroom and GC paused (open finding C03/origin-morestack-reentry is excluded by construction)"],
     "floors": [("histories", "history/restore-after-reapply-or-second-owner", 100), ("histories", "history/two-owners-on-one-target", 50),
                ("histories", "history/with-origin-placeholder", 50)],
+}
+
+PROPS["C14"] = {
+    "prepare": [prep_refdecoders],
+    "units": [
+        {"name": "synthetic", "pkg": "./internal/patch", "run": "^TestVerifC14Synthetic$", "timeout": {"quick": 400, "thorough": 2400},
+         "shards": {"quick": 1, "thorough": 8}, "wrap": strace_wrap, "post": c14_post},
+        {"name": "real", "pkg": "./internal/patch", "run": "^TestVerifC14Real$", "timeout": {"quick": 400, "thorough": 2400},
+         "shards": {"quick": 1, "thorough": 4}, "wrap": strace_wrap, "post": c14_post},
+    ],
+    "rule": "synthetic: rapid lays out a target 'function' (1..200 bytes of straight-line code ending in RET, 0..40 INT3 of padding, a neighbour function "
+            "after it) at a generated page offset - including entries 1..13 bytes before a page end - in a never-reused R-X mapping and drives goom's "
+            "PtrTrampoline/Guard.Apply/Unpatch and raw memory.WriteTo with generated offsets/lengths across page boundaries; real: every function of "
+            "ballast packages (go/types, net/http, math/big, text/template, ...) of the test binary is patched and unpatched with the whole text diffed "
+            "at each step. Oracle: accepted => exactly the 13 entry bytes differ and hold the jump, neighbours/padding/other pages untouched, too-short "
+            "functions refused, unpatch restores byte-for-byte, /proc/self/maps shows r-xp. Both units run under strace: every mprotect on the image or "
+            "the synthetic arena keeps PROT_EXEC and the last protection of each page is R+X. Non-trivial: entry within 13 bytes of a page end, extent "
+            "within +-3 of 13, or a write crossing a page; every patched real function; distinct by layout / function name / page.",
+    "assumptions": ["a tiny body glued to its neighbour without padding is not generated (no Go binary contains one)", "ballast functions are never executed by the harness or goom"],
+    "floors": [("synthetic", "accepted/entry-within-13-bytes-of-page-end", 200), ("synthetic", "refused/too-short", 100), ("synthetic", "write-crossing-a-page-boundary", 300),
+               ("real-binary", "patched-and-restored", 1000), ("strace-synthetic", "mprotect-on-synthetic-arena", 1000), ("strace-real", "mprotect-on-text", 1000)],
 }
